@@ -71,7 +71,7 @@ import (
 // ---------------------------------------------------------------- plan
 
 type Edit struct {
-	K string `json:"k"`           // flip trunc drop dup zero junk | size ofs ref swap count dupent dsrc dtgt doob retype
+	K string `json:"k"`           // flip trunc drop dup zero junk ofs0 | size ofs ref swap count dupent dsrc dtgt doob retype
 	W string `json:"w,omitempty"` // byte edits: region selector (abs sig ver count ehdr base zhdr zbody ztail trailer)
 	E int    `json:"e,omitempty"` // entry selector
 	O int    `json:"o,omitempty"` // offset inside the region (abs: absolute offset)
@@ -1227,6 +1227,16 @@ func gitIndexPack(data []byte) gitVerdict {
 							break
 						}
 					}
+					if v.class == "inflate" {
+						switch {
+						case strings.Contains(se, "inflate returned 1"):
+							v.class = "inflate-shorter-than-declared"
+						case strings.Contains(se, "inflate returned -5"):
+							v.class = "inflate-longer-than-declared"
+						case strings.Contains(se, "inflate returned -3"):
+							v.class = "inflate-data-error"
+						}
+					}
 				}
 			}
 			os.RemoveAll(dir)
@@ -1578,6 +1588,14 @@ func corrupt(p *Plan, bp *basePack) *corrupted {
 				data[i] = 0
 			}
 			class = "zero:" + regionName(regs, c.total, pos)
+		case "ofs0":
+			k := pickEntry(len(regs), e.E, func(i int) bool { return regs[i].typ == tOfs && regs[i].hdrEnd < n })
+			if k < 0 {
+				class = "ofs0:none"
+				break
+			}
+			data[regs[k].hdrEnd] = 0
+			class = "ofs-first-byte=0"
 		case "junk":
 			for i := 0; i < clamp(e.N, 1, 64); i++ {
 				data = append(data, byte(e.V+i*37))
@@ -1697,10 +1715,11 @@ type chunkReader struct {
 	over     bool
 	seeks    int
 	splits   int
+	floor    int // minimal delivery size (keeps byte-wise delivery of big packs into the PackWriter affordable)
 }
 
-func newChunkReader(data []byte, ck Chunking) *chunkReader {
-	c := &chunkReader{data: data, mode: ck.Mode, def: ck.Def, budget: 200000 + 64*len(data)}
+func newChunkReader(data []byte, ck Chunking, floor int) *chunkReader {
+	c := &chunkReader{data: data, mode: ck.Mode, def: ck.Def, floor: floor, budget: 200000 + 64*len(data)}
 	for i, v := range ck.Chunks {
 		if i >= 64 {
 			break
@@ -1733,6 +1752,9 @@ func (c *chunkReader) Read(p []byte) (int, error) {
 			c.chunkEnd = c.pos + c.def
 		default:
 			c.chunkEnd = len(c.data)
+		}
+		if c.chunkEnd < c.pos+c.floor {
+			c.chunkEnd = c.pos + c.floor
 		}
 		if c.chunkEnd > len(c.data) {
 			c.chunkEnd = len(c.data)
@@ -1874,6 +1896,7 @@ type pathResult struct {
 	sizeErrs []string
 	splits   int
 	reads    int
+	sampled  bool
 	hugeCnt  uint32 // not executed: the header count would make idxfile.Writer.OnHeader allocate count*sizeof(Entry)
 	perEntry uint64 // measured bytes allocated per announced object
 }
@@ -1910,8 +1933,10 @@ func guard(f func()) (pv any, stack string, hung bool) {
 	}()
 	select {
 	case <-done:
-	case <-time.After(120 * time.Second):
+	case <-time.After(300 * time.Second):
 		hung = true
+		buf := make([]byte, 1<<20)
+		stack = string(buf[:runtime.Stack(buf, true)])
 	}
 	return
 }
@@ -1989,6 +2014,16 @@ func readBack(disk *simfs.Disk, res *pathResult) {
 		}
 	}
 	ids = append(ids, looseIDs(disk)...)
+	sampled := false
+	if len(ids) > 600 {
+		// deep-chain packs: every read walks the chain; read a spread sample only
+		var pick []oid
+		for i := 0; i < 32; i++ {
+			pick = append(pick, ids[i*(len(ids)-1)/31])
+		}
+		ids, sampled = pick, true
+	}
+	res.sampled = sampled
 	st := newFS(disk, "r", false)
 	for _, id := range ids {
 		o, err := st.EncodedObject(plumbing.AnyObject, toHash(id))
@@ -2003,6 +2038,9 @@ func readBack(disk *simfs.Disk, res *pathResult) {
 		}
 	}
 	st.Close()
+	if sampled {
+		return
+	}
 	st2 := newFS(disk, "i", false)
 	it, err := st2.IterEncodedObjects(plumbing.AnyObject)
 	if err == nil {
@@ -2032,7 +2070,11 @@ func runPath(path string, data []byte, pristine []byte, ck Chunking) *pathResult
 	res := &pathResult{}
 	parts := strings.Split(path, "/")
 	seek := parts[len(parts)-1] == "seek"
-	cr := newChunkReader(data, ck)
+	floor := 0
+	if parts[0] == "packwriter+reopen" && len(data) > 8192 {
+		floor = len(data) / 4096
+	}
+	cr := newChunkReader(data, ck, floor)
 	var rd io.Reader = cr
 	if seek {
 		rd = seekChunkReader{cr}
@@ -2090,17 +2132,20 @@ func runPath(path string, data []byte, pristine []byte, ck Chunking) *pathResult
 				feed = pristine
 			}
 			if n := headerCount(feed); n > hugeCount {
-				// PackWriter's indexer would call idxfile.(*Writer).OnHeader(n), which does
-				// make(objects, 0, n) before a single entry is read: with n up to 2^32-1 that is
-				// a fatal, unrecoverable out-of-memory. Measure the same call with a small count.
-				res.hugeCnt = n
+				// PackWriter's indexer calls idxfile.(*Writer).OnHeader(n); when that allocates in
+				// proportion to n (make(objects, 0, n)) a count up to 2^32-1 is a fatal,
+				// unrecoverable out-of-memory. Measure the call with a moderate count first and do
+				// not execute the real one if the allocation scales with the announced count.
 				var m0, m1 runtime.MemStats
 				runtime.ReadMemStats(&m0)
-				_ = new(idxfile.Writer).OnHeader(1 << 16)
+				_ = new(idxfile.Writer).OnHeader(1 << 19)
 				runtime.ReadMemStats(&m1)
-				res.perEntry = (m1.TotalAlloc - m0.TotalAlloc) >> 16
-				st.Close()
-				return
+				res.perEntry = (m1.TotalAlloc - m0.TotalAlloc) >> 19
+				if res.perEntry >= 16 {
+					res.hugeCnt = n
+					st.Close()
+					return
+				}
 			}
 			if len(parts) > 1 && parts[1] == "update" && parts[0] == "packwriter+reopen" {
 				res.err = packfile.UpdateObjectStorage(st, rd)
@@ -2292,8 +2337,19 @@ func (x *run) judge(path string, res *pathResult) {
 		return
 	}
 	if res.hung || res.budget {
-		out.Fail(sig("hang-budget"), "%s: %d reads for a %d-byte stream (hung=%v)", path, res.reads, len(data), res.hung)
+		st := ""
+		for _, l := range strings.Split(res.stack, "\n") {
+			if strings.Contains(l, "go-git/v6/") && !strings.Contains(l, "verifsim") && len(st) < 3000 {
+				st += "\n" + strings.TrimSpace(l)
+			}
+		}
+		out.Fail(sig("hang-budget"), "%s: %d reads for a %d-byte stream (no return after 300 s: %v)%s", path, res.reads, len(data), res.hung, st)
 		x.logf("%s %s hang", path, x.fc)
+		return
+	}
+	if res.setupErr == "valid-pack-not-stored" && normBase(x.p.Base).Kind == "deep" && normBase(x.p.Base).N > 4095 {
+		out.Probe("at-rest:over-deep-base-not-storable")
+		x.logf("%s over-deep base not stored", path)
 		return
 	}
 	if res.setupErr != "" {
@@ -2301,13 +2357,14 @@ func (x *run) judge(path string, res *pathResult) {
 			out.Inconclusive = res.setupErr
 		}
 		x.logf("%s setup %s", path, res.setupErr)
+		if os.Getenv("C09_DEBUG") != "" {
+			fmt.Fprintf(os.Stderr, "c09: setup %s on %s: base %v chunk %+v err %v\n", res.setupErr, path, normBase(x.p.Base), x.p.Chunk, res.err)
+		}
 		return
 	}
 	if res.hugeCnt > 0 {
-		if res.perEntry >= 16 {
+		{
 			out.Fail("C09|"+path+"|allocation-from-header-count|header-count", "%s: header announces %d objects in a %d-byte stream; idxfile.(*Writer).OnHeader allocates make(objects, 0, count) = %d bytes per announced object (measured) before any entry is read, i.e. %d MiB here (fatal out-of-memory for large counts; run skipped to keep the worker alive)", path, res.hugeCnt, len(data), res.perEntry, (uint64(res.hugeCnt)*res.perEntry)>>20)
-		} else {
-			out.Probe("header-count-allocation-bounded")
 		}
 		x.logf("%s %s huge-count", path, x.fc)
 		return
@@ -2442,7 +2499,7 @@ func (x *run) judge(path string, res *pathResult) {
 					return
 				}
 			}
-			if len(anomalies) == 0 {
+			if len(anomalies) == 0 && !res.sampled {
 				for _, e := range lay.ents {
 					if !stored[e.id] {
 						out.Fail(sig("count-mismatch"), "%s: pack accepted but object %s (entry at %d) is not in the storage (%d of %d present)", path, e.id, e.off, len(stored), len(ids))
@@ -2547,8 +2604,38 @@ func (x *run) judgeAtRest(path string, res *pathResult, sig func(string) string)
 
 // ---------------------------------------------------------------- Exec
 
-func execPlan(t *testing.T, pa any) (out core.Outcome) {
+func execPlan(t *testing.T, pa any) core.Outcome {
 	p := pa.(*Plan)
+	out := execCore(t, p)
+	if out.Signature == "" || len(p.Edits) < 2 {
+		return out
+	}
+	// several edits: attribute the violation to the one edit that reproduces the
+	// same symptom on the same path alone, so that the signature names the cause
+	part := func(sig string, i int) string {
+		f := strings.Split(sig, "|")
+		if i < len(f) {
+			return f[i]
+		}
+		return ""
+	}
+	for i := range p.Edits {
+		if i >= 6 {
+			break
+		}
+		q := *p
+		q.Edits = []Edit{p.Edits[i]}
+		o2 := execCore(t, &q)
+		if o2.Signature != "" && part(o2.Signature, 1) == part(out.Signature, 1) && part(o2.Signature, 2) == part(out.Signature, 2) {
+			out.Signature = o2.Signature
+			out.Message = o2.Message + fmt.Sprintf(" [edit %d of %d alone]", i+1, len(p.Edits))
+			break
+		}
+	}
+	return out
+}
+
+func execCore(t *testing.T, p *Plan) (out core.Outcome) {
 	hooks.Deterministic(true)
 	out.Faults = map[string]int{}
 	x := &run{p: p, out: &out}
@@ -2628,6 +2715,8 @@ func genByteEdit(r *core.Rand) Edit {
 		e.K, e.W = "dup", r.Pick("abs", "entry", "bound", "ehdr")
 	case x < 94:
 		e.K, e.W = "zero", r.Pick("abs", "entry", "zbody", "ztail", "ehdr", "base", "trailer", "count")
+	case x < 97:
+		e.K = "ofs0"
 	default:
 		e.K, e.V = "junk", r.Intn(256)
 	}
